@@ -187,6 +187,9 @@ def main():
                 oracle_fails.append(f)
 
     # 7. known findings
+    for fid in open_kf:
+        total = int(stats.get("distribution", {}).get("known_finding:" + fid, 0))
+        kf_hits[fid] = max(kf_hits.get(fid, 0), total)
     for fid, f in open_kf.items():
         print("KNOWN-FINDING: property=%s %s: %s (hits this run: %d)" % (prop, fid, f["what"], kf_hits.get(fid, 0)))
 
